@@ -66,12 +66,13 @@ def precision_zero_is_a_value(ctx, rule, classes=None):
     bad = []
     n = 0
     for fi in model.funcs.values():
-        if fi.mod.rel != 'pyplate/pyplate.py':
+        if fi.mod.rel not in ('pyplate/pyplate.py', 'pyplate/__init__.py'):
             continue
         top = fi
         while top.parent is not None:
             top = top.parent
-        if classes is not None and (top.cls is None or top.cls.name not in classes):
+        # (a look-up helper on the configuration object itself serves every class)
+        if classes is not None and fi.mod.rel == 'pyplate/pyplate.py' and (top.cls is None or top.cls.name not in classes):
             continue
         if fi.parent is not None:
             continue
